@@ -1029,6 +1029,9 @@ func TestEnumerate(t *testing.T) {
 	seen := map[string]bool{}
 	queue := []node{{}}
 	transitions, diverged, ntraces := 0, 0, 0
+	maxStates := common.EnvInt("VERIF_MAX_STATES", 48)
+	maxDepth := common.EnvInt("VERIF_MAX_DEPTH", 12)
+	truncated := false
 	var fatal []string
 	first := true
 	for len(queue) > 0 {
@@ -1110,6 +1113,13 @@ func TestEnumerate(t *testing.T) {
 			}
 			transitions++
 			if !seen[reached] {
+				// The real invoker has a handful of quiescent states; an
+				// implementation whose state keeps growing (a use count
+				// that leaks) must not make the enumeration run away.
+				if len(seen) >= maxStates || len(nd.path) >= maxDepth {
+					truncated = true
+					continue
+				}
 				seen[reached] = true
 				queue = append(queue, node{path: append(append([]step{}, nd.path...), s)})
 			}
@@ -1120,7 +1130,7 @@ func TestEnumerate(t *testing.T) {
 		keys = append(keys, k)
 	}
 	sort.Strings(keys)
-	common.WriteJSON("meta.json", map[string]any{"threads": n, "states": len(seen), "transitions": transitions, "diverged_replays": diverged, "traces": ntraces, "state_keys": keys})
+	common.WriteJSON("meta.json", map[string]any{"threads": n, "states": len(seen), "transitions": transitions, "diverged_replays": diverged, "traces": ntraces, "truncated": truncated, "state_keys": keys})
 	finishDriver(t, fatal)
 }
 
